@@ -10,10 +10,10 @@ cp seeded/demo.py $out/demo.py 2>/dev/null
 cp seeded/notes.md $out/agent_notes.md 2>/dev/null
 PYTHONPATH=$wt/src timeout 300 /venv/bin/python seeded/demo.py > /tmp/demo_with.txt 2>&1; rc_with=$?
 t_with=$(PYTHONPATH=$wt/src timeout 1200 /venv/bin/python -m pytest $tests -q -p no:cacheprovider 2>&1 | tail -1)
-git stash -q
+git apply -R $out/patch.diff   # (git stash is shared between worktrees: never use it here)
 PYTHONPATH=$wt/src timeout 300 /venv/bin/python seeded/demo.py > /tmp/demo_without.txt 2>&1; rc_without=$?
 t_without=$(PYTHONPATH=$wt/src timeout 1200 /venv/bin/python -m pytest $tests -q -p no:cacheprovider 2>&1 | tail -1)
-git stash pop -q
+git apply $out/patch.diff
 echo "demo rc with change: $rc_with ; without: $rc_without"
 echo "tests with: $t_with"
 echo "tests without: $t_without"
